@@ -1,5 +1,6 @@
 import NLE.Driver.TraceParse
 import NLE.Model.Monitors
+import NLE.Model.Own
 /-
   `trace-begin` … lines … `trace-end`: parse a harness trace, run the world model and the monitors,
   answer one line:  `T <events> <parse-error-line|0> <store-mismatches> <fails>` followed by tab-separated
@@ -21,6 +22,16 @@ def TraceAcc.add (a : TraceAcc) (line : String) : TraceAcc :=
   | some (vs, none) => { a with views := vs, n := n }
   | none => { a with n := n, badLine := if a.badLine = 0 then n else a.badLine }
 
+/-- Run an implementation model over the events up to `end`; `some (k, why)` = rejected at event k. -/
+def accOwn (evs : List TEv) : Option (Nat × String) :=
+  let rec go (s : Own.State) (k : Nat) : List TEv → Option (Nat × String)
+    | [] => none
+    | e :: es =>
+      match Own.step s e with
+      | .ok s' => go s' (k + 1) es
+      | .error msg => some (k, msg)
+  go {} 1 evs
+
 def sanitize (s : String) : String :=
   String.ofList (s.toList.map fun c => if c == '\t' || c == '\n' || c == '|' then ' ' else c)
 
@@ -28,7 +39,14 @@ def TraceAcc.finish (a : TraceAcc) : String :=
   let m := Mon.run a.evs.toList
   let fails := m.w.fails.reverse.map fun f => s!"{f.prop}|{f.clause}|{f.line}|{sanitize f.detail}"
   let store := m.w.storeMismatch.reverse.map fun s => s!"STORE|store-model|0|{sanitize s}"
-  let items := store ++ fails
+  let cov := m.w.cov.map fun (k, n) => s!"COV|{k}|{n}|"
+  -- implementation models: does the model accept (= can it produce) this trace?
+  let acc := [("Own", accOwn a.evs.toList)]
+  let accItems := acc.map fun (name, r) =>
+    match r with
+    | none => s!"ACC|{name}|0|ok"
+    | some (n, msg) => s!"ACC|{name}|{n}|{sanitize msg}"
+  let items := store ++ fails ++ cov ++ accItems
   "\t".intercalate (s!"T {a.evs.size} {a.badLine} {store.length} {fails.length}" :: items)
 
 end NLE.Driver
